@@ -260,7 +260,7 @@ impl Property for P {
     }
     fn rule(&self) -> String {
         "Generated: (suite of 48, mode, session) with histories interleaving exports on either side (exporter contexts up to 300 bytes and, rarely, 65535..70000 bytes; L from boundaries {0,1,Nh+-1,255Nh+-1,65535+-1,100000} and uniform) with seals, opens, rejected deliveries, exhaustion of both contexts at 2^64-1 (hook), and panicking seal/open attempts on export-only suites. \
-         Swept: 48x4 cells; every L in 0..=400 and within 40 of 255*Nh and of 2^16 for each KDF (thorough: every L in 0..=66000 per KDF); every exporter-context length 0..=1100 (thorough 0..=4200) per KDF with a one-block and a multi-block L, alternating sides. \
+         Swept: 48x4 cells; every L in 0..=400 and within 40 of 255*Nh and of 2^16 for each KDF (thorough: every L in 0..=66000 per KDF); every exporter-context length 0..=1100 (thorough 0..=4200) per KDF with a one-block and a multi-block L, alternating sides; exporter contexts found by search for which the RFC value of a 1- or 2-byte export is all-zero. \
          Oracle: reference LabeledExpand(exporter_secret_ref, \"sec\", ctx, L); Ok iff L<=255*Nh else KdfOutputTooLong; repeatable; sender==receiver. \
          Non-trivial: an export after traffic on the same context, or L within 2 of a boundary, or an L-range sweep."
             .into()
@@ -356,7 +356,42 @@ impl Property for P {
                 from = to + 1;
             }
         }
-        vec![("suite_x_mode_cells".into(), cells), ("export_length_ranges".into(), ranges), ("every_exporter_context_length".into(), ctxlens)]
+        // exports whose RFC value is all-zero (L = 1: 2^-8, L = 2: 2^-16 per exporter context; found by
+        // searching exporter contexts against the reference): a value is a value, an implementation
+        // that treats an all-zero output as a failure (as the X25519 DH check does) refuses these
+        let mut zeros = Vec::new();
+        for (ki, kdf) in KdfId::ALL.into_iter().enumerate() {
+            let s = Suite { kem: r::KemId::X25519, kdf, aead: if ki == 0 { r::AeadId::Export } else { r::AeadId::ChaCha } };
+            let sess = gen::cell_session(s, ki as u8, 14);
+            let keys = sess.keys();
+            let ikm_e = sess.ikm_e();
+            let Some((_, ks)) = r::setup_s(&sess.sender_in(&keys, &ikm_e)) else { continue };
+            let mut ops = Vec::new();
+            let (mut n1, mut n2) = (0, 0);
+            let budget = match tier {
+                Tier::Quick => 400_000u32,
+                Tier::Thorough => 4_000_000,
+            };
+            for i in 0..budget {
+                let ctx = format!("zero-search-{}", i).into_bytes();
+                if n1 < 3 && ks.export(&ctx, 1).map_or(false, |v| v == [0]) {
+                    n1 += 1;
+                    ops.push(Op::Export { side: (n1 % 2) as u8, ctx: Bytes(ctx.clone()), len: 1 });
+                }
+                if ks.export(&ctx, 2).map_or(false, |v| v == [0, 0]) {
+                    n2 += 1;
+                    ops.push(Op::Export { side: 0, ctx: Bytes(ctx.clone()), len: 2 });
+                    ops.push(Op::Export { side: 1, ctx: Bytes(ctx), len: 2 });
+                    if n2 >= 2 {
+                        break;
+                    }
+                }
+            }
+            if !ops.is_empty() {
+                zeros.push(Case::History { sess, ops });
+            }
+        }
+        vec![("suite_x_mode_cells".into(), cells), ("export_length_ranges".into(), ranges), ("every_exporter_context_length".into(), ctxlens), ("exports_whose_value_is_all_zero".into(), zeros)]
     }
     fn check(&self, case: &Case, obs: &mut Obs) -> Verdict {
         match case {
